@@ -77,6 +77,12 @@ for _k, _v in HANDLERS.items():
     CENSUS.setdefault(_k, []).extend(_v)
 
 
+# results built by mutation (loops pushing into a Vec, closures given to iterator adaptors) are invisible in the return
+# expression: every non-handler entry is censused with the exits of its closures ('~') and its pointer / container writes ('+')
+for _k, _v in CENSUS.items():
+    CENSUS[_k] = [f if f.startswith('!') else ('~+' + f.lstrip('+~')) for f in _v]
+
+
 def run(ctx, pid):
     from engine import census
     for f in CENSUS.get(pid, []):
